@@ -176,4 +176,11 @@ example : checkAll true (fun p => p == 1) "src/models/a.py".toList
     checkAll true (fun p => p == 1) "src/models/a.py".toList
     ⟨some [⟨"src".toList, none, none⟩, ⟨"src/models".toList, some [1], some [1]⟩], none, none⟩ = [.dirDeny "src/models".toList 1] := by decide
 
+/-- a key written with a trailing slash is as deep as the same key without it (F18b repaired) -/
+theorem keyDepth_trailing_slash (k : Str) : keyDepth (k ++ ['/']) = keyDepth k := by
+  unfold keyDepth
+  simp [List.reverse_append]
+
+example : keyDepth "src/".toList = 1 ∧ keyDepth "src/models".toList = 2 ∧ countParts "src/".toList = 2 := by decide
+
 end ThaiLintModel.C18
